@@ -192,4 +192,15 @@ def plan(tier):
                             '(the wait hook of the runtime model runs the resolver exactly when the reader would otherwise block forever): %s' % ot,
                       data='payloads symbolic', bounds='8 hand-written script / access combinations, one pending await per blocking read',
                       outside='two pending awaits inside one blocking read; the iterator styles under this timing'))
+    import itertools as _it
+    vcb = []
+    for mode in (0, 1):
+        for n in range(4):
+            for pend in _it.product((0, 1), repeat=n):
+                vcb.append([mode, n] + list(pend))
+    units.append(dict(engine='e1', name='cb_consumer', tu='C13cb.cpp', entry='h_gen_cb', unwind=12, vectors=vcb,
+                      concrete=[([0, 2, 0, 1], [1, 2, 3, 4, 5, 6, 7]), ([1, 3, 1, 0, 1], [1, 2, 3, 4, 5, 6, 7, 8]), ([1, 0], [9, 9, 9, 9, 9])],
+                      space='generator<int,int> read by a callback awaiter (as generator_aggregator does): on every notification the consumer hands over the argument of its next request inside the notification and lets the '
+                            'generator run at once (still inside the notification) or after the notification has returned; bodies of 0..3 yields, each preceded by nothing or by an await of a pending future completed by the harness; full product',
+                      data='arguments and awaited results: unconstrained 32-bit ints (symbolic)', bounds='<= 3 yields', outside='see h_gen_arg'))
     return units
